@@ -319,6 +319,28 @@ func ruleWriteValidates(c *Ctx) {
 			if pr.Results[0].Key() != set.Result.Key() {
 				bad = append(bad, "the store's error is not returned on "+where)
 			}
+			// what was validated is what is written: between Validate and the write nothing edits the configuration
+			// (its Version stamp aside) and no pike function that writes configuration fields is applied to it
+			for i := valAt + 1; i < setAt && i < len(pr.Events); i++ {
+				e := pr.Events[i]
+				switch {
+				case e.Kind == "store" && e.Addr != nil && (e.Addr.Op == "fa" || e.Addr.Op == "ia"):
+					if e.Addr.Op == "fa" && e.Addr.Name == "Version" {
+						continue
+					}
+					if e.Addr.contains(func(x *Term) bool { return x.Op == "sym" && strings.HasPrefix(x.Name, "p:") }) {
+						bad = append(bad, "the configuration is edited ("+prettyTerm(e.Addr)+") after it was validated and before it is written: what is saved is not what was accepted on "+where)
+					}
+				case e.Kind == "call" && e.Callee != nil && inPkg(e.Callee, "config") && e.Callee.Name() != "Validate":
+					if ms := c.P.mods(e.Callee); ms != nil && (ms.unknown || len(ms.fields) > 0) {
+						for fv := range ms.fields {
+							if fv.Pkg() != nil && fv.Pkg().Path() == pkgPath("config") && fv.Name() != "Version" {
+								bad = append(bad, "after validation the configuration goes through "+funcName(e.Callee)+", which rewrites "+fv.Name()+": what is saved is not what was accepted (references that were closed can dangle) on "+where)
+							}
+						}
+					}
+				}
+			}
 			oks++
 			return
 		}
